@@ -8,6 +8,8 @@ import (
 	"strings"
 	"sync"
 	"time"
+
+	"golang.org/x/tools/go/ssa"
 )
 
 // ---- trace records -------------------------------------------------------
@@ -106,6 +108,8 @@ type Result struct {
 	CrossDisagree    int            `json:"cross_solver_disagreements"`
 	MemoHits         int            `json:"memo_hits"`
 	SolverSec        float64        `json:"solver_s"`
+	ModelSec         float64        `json:"solver_model_s"`
+	Models           int            `json:"models_fetched"`
 	AssertsSymbolic  int            `json:"asserts_discharged_by_solver"`
 	AssertsConcrete  int            `json:"asserts_concretely_true"`
 	AssertsUnknown   int            `json:"asserts_unknown"`
@@ -216,6 +220,12 @@ type pathCtx struct {
 	onces                                                       map[*value]bool
 	lenient                                                     bool
 	lastPanic                                                   string
+	fninfo                                                      map[*ssa.Function]*fnInfo
+	model                                                       map[string]*big.Int
+	lastTrace                                                   []rec
+	shared                                                      int
+	facts                                                       map[*Term]rng
+	rangeHits                                                   int
 	stack                                                       []*frame
 	panicStack                                                  string
 }
@@ -233,7 +243,6 @@ func (cx *pathCtx) unsupported(what string) {
 
 func (cx *pathCtx) beginPath(prefix []rec) {
 	cx.prefix = prefix
-	cx.trace = cx.trace[:0]
 	cx.memo = map[*Term]bool{}
 	cx.alts = nil
 	cx.forks = 0
@@ -251,25 +260,74 @@ func (cx *pathCtx) beginPath(prefix []rec) {
 	cx.onces = nil
 	cx.stack = cx.stack[:0]
 	cx.panicStack = ""
+	cx.model = nil
+	cx.facts = nil
 	if cx.f.Size() > 2_000_000 {
 		cx.f = NewFactory()
+		cx.lastTrace = nil
+		if cx.s != nil {
+			cx.s.ResetAll()
+		}
 	}
 	cx.f.distinct = map[[2]int]bool{} // distinctness facts hold only under this path's assumptions
+	// solver state shared with the previous path of this worker: the longest
+	// common prefix of decision records
+	k := 0
 	if cx.s != nil {
+		for k < len(prefix) && k < len(cx.lastTrace) && prefix[k] == cx.lastTrace[k] {
+			k++
+		}
+		cx.s.PopTo(k)
 		cx.s.BeginPath()
+	}
+	cx.shared = k
+	cx.trace = cx.trace[:0]
+}
+
+func (cx *pathCtx) endPath() {
+	cx.lastTrace = append(cx.lastTrace[:0], cx.trace...)
+	if cx.s != nil {
+		// the solver holds one scope per record that was actually sent
+		if cx.s.Level() < len(cx.lastTrace) {
+			cx.lastTrace = cx.lastTrace[:cx.s.Level()]
+		}
+		cx.s.EndPath()
 	}
 }
 
 func (cx *pathCtx) setMemo(c *Term, v bool) {
 	cx.memo[c] = v
 	cx.memo[cx.f.Not(c)] = !v
+	cx.learn(c, v)
 }
 
-func (cx *pathCtx) assertPC(c *Term, taken bool) {
-	if !taken {
-		c = cx.f.Not(c)
+// record appends a trace record and mirrors it in the solver: one scope per
+// record, holding the record's assertion (if any). Records inside the part
+// of the prefix shared with the previous path are already in the solver.
+func (cx *pathCtx) record(r rec, assertion *Term) {
+	i := len(cx.trace)
+	cx.trace = append(cx.trace, r)
+	if i < cx.shared {
+		return
 	}
-	cx.s.Assert(c)
+	if cx.s.Level() != i {
+		cx.abort("engine-error", fmt.Sprintf("solver scope %d out of step with trace %d", cx.s.Level(), i))
+	}
+	// define before opening the scope so that the definition survives a pop
+	// to this level only if it belongs to an earlier record
+	cx.s.PushScope()
+	if assertion != nil && assertion.op != OpConst {
+		cx.s.Assert(assertion)
+	} else if assertion != nil && assertion.isFalse() {
+		cx.s.Assert(assertion)
+	}
+}
+
+func (cx *pathCtx) lit(c *Term, taken bool) *Term {
+	if taken {
+		return c
+	}
+	return cx.f.Not(c)
 }
 
 func (cx *pathCtx) nextPrefix(kind recKind, h uint64) (rec, bool) {
@@ -289,8 +347,27 @@ func (cx *pathCtx) check(c *Term, negate bool, counter *int) Verdict {
 	return cx.s.Check(c, negate)
 }
 
+// ensureModel makes cx.model a model of the current path condition.
+func (cx *pathCtx) ensureModel() bool {
+	if cx.model != nil {
+		return true
+	}
+	cx.qFeas++
+	m, ok := cx.s.Model(nil, false)
+	if !ok {
+		return false
+	}
+	cx.model = m
+	return true
+}
+
+func (cx *pathCtx) evalModel(c *Term) bool {
+	return c.Eval(cx.model, map[*Term]*big.Int{}).Sign() != 0
+}
+
 // decide resolves a symbolic boolean on the current path, forking if both
-// outcomes are feasible.
+// outcomes are feasible. The current model witnesses one side for free; the
+// solver is asked about the other side only.
 func (cx *pathCtx) decide(c *Term) bool {
 	if c.w != 0 {
 		panic("decide: not Bool")
@@ -305,36 +382,50 @@ func (cx *pathCtx) decide(c *Term) bool {
 		cx.memoHits++
 		return v
 	}
+	if v, ok := cx.rangeDecide(c); ok {
+		cx.rangeHits++
+		cx.memo[c] = v
+		cx.memo[cx.f.Not(c)] = !v
+		return v
+	}
 	if r, ok := cx.nextPrefix(recBranch, c.h); ok {
-		cx.trace = append(cx.trace, r)
-		cx.assertPC(c, r.taken)
+		cx.record(r, cx.lit(c, r.taken))
 		cx.setMemo(c, r.taken)
 		return r.taken
 	}
-	vt := cx.check(c, false, &cx.qFeas)
-	ft := vt != Unsat
-	ff := true
-	if ft {
-		vf := cx.check(c, true, &cx.qFeas)
-		ff = vf != Unsat
-		if vf == Unknown {
+	var taken, both bool
+	if cx.ensureModel() {
+		taken = cx.evalModel(c)
+		vo := cx.check(c, taken, &cx.qFeas) // the side the model does not witness
+		both = vo != Unsat
+		if vo == Unknown {
 			cx.unknown++
 		}
+	} else {
+		// no model (solver unknown): fall back to two feasibility queries
+		vt := cx.check(c, false, &cx.qFeas)
+		vf := cx.check(c, true, &cx.qFeas)
+		if vt == Unknown || vf == Unknown {
+			cx.unknown++
+		}
+		if vt == Unsat && vf == Unsat {
+			cx.abort("infeasible", "")
+		}
+		taken = vt != Unsat
+		both = vt != Unsat && vf != Unsat
 	}
-	if vt == Unknown {
-		cx.unknown++
+	if os.Getenv("GOSMT_LOGDEC") != "" {
+		fmt.Fprintf(os.Stderr, "[dec both=%v] %s\n", both, c.String())
 	}
-	taken := ft
 	i := len(cx.trace)
-	if ft && ff {
+	if both {
 		alt := make([]rec, i+1)
 		copy(alt, cx.trace)
-		alt[i] = rec{kind: recBranch, taken: false, h: c.h}
+		alt[i] = rec{kind: recBranch, taken: !taken, h: c.h}
 		cx.alts = append(cx.alts, alt)
 		cx.forks++
 	}
-	cx.trace = append(cx.trace, rec{kind: recBranch, taken: taken, h: c.h})
-	cx.assertPC(c, taken)
+	cx.record(rec{kind: recBranch, taken: taken, h: c.h}, cx.lit(c, taken))
 	cx.setMemo(c, taken)
 	return taken
 }
@@ -359,21 +450,30 @@ func (cx *pathCtx) assume(c *Term) {
 		}
 		return
 	}
+	if v, ok := cx.rangeDecide(c); ok {
+		if !v {
+			cx.abort("assume", "")
+		}
+		return
+	}
 	if r, ok := cx.nextPrefix(recAssume, c.h); ok {
-		cx.trace = append(cx.trace, r)
-		cx.s.Assert(c)
+		cx.record(r, c)
 		cx.setMemo(c, true)
 		return
 	}
-	v := cx.check(c, false, &cx.qFeas)
-	if v == Unsat {
-		cx.abort("assume", "")
+	if cx.model != nil && cx.evalModel(c) {
+		// the current model already satisfies c: feasible without a query
+	} else {
+		v := cx.check(c, false, &cx.qFeas)
+		if v == Unsat {
+			cx.abort("assume", "")
+		}
+		if v == Unknown {
+			cx.unknown++
+		}
+		cx.model = nil
 	}
-	if v == Unknown {
-		cx.unknown++
-	}
-	cx.trace = append(cx.trace, rec{kind: recAssume, taken: true, h: c.h})
-	cx.s.Assert(c)
+	cx.record(rec{kind: recAssume, taken: true, h: c.h}, c)
 	cx.setMemo(c, true)
 }
 
@@ -409,87 +509,96 @@ func (cx *pathCtx) assertProp(c *Term, id string) {
 	}
 	if c.op == OpConst {
 		if _, ok := cx.nextPrefix(recAssert, 1); ok {
-			cx.trace = append(cx.trace, rec{kind: recAssert, h: 1})
+			cx.record(rec{kind: recAssert, h: 1}, nil)
 			if c.isFalse() {
 				cx.abort("assert-false", id)
 			}
 			return
 		}
-		cx.trace = append(cx.trace, rec{kind: recAssert, h: 1})
+		cx.record(rec{kind: recAssert, h: 1}, nil)
 		if c.isTrue() {
 			cx.aConc++
 			return
 		}
-		m, ok := cx.s.Model(nil, false)
 		cx.qAssert++
-		if !ok {
-			cx.aUnk++
+		if cx.ensureModel() {
+			cx.reportViolation(id, "assert", "concretely false on this path", cx.model)
 		} else {
-			cx.reportViolation(id, "assert", "concretely false on this path", m)
+			cx.aUnk++
 		}
 		cx.abort("assert-false", id)
 	}
 	if _, ok := cx.nextPrefix(recAssert, c.h); ok {
-		cx.trace = append(cx.trace, rec{kind: recAssert, h: c.h})
 		if v, ok := cx.memo[c]; ok {
+			cx.record(rec{kind: recAssert, h: c.h}, nil)
 			if !v {
 				cx.abort("assert-false", id)
 			}
 			return
 		}
-		cx.s.Assert(c)
+		cx.record(rec{kind: recAssert, h: c.h}, c)
 		cx.setMemo(c, true)
 		return
 	}
-	cx.trace = append(cx.trace, rec{kind: recAssert, h: c.h})
 	if v, ok := cx.memo[c]; ok {
+		cx.record(rec{kind: recAssert, h: c.h}, nil)
 		if v {
 			cx.aSym++ // implied by the path condition already
 			return
 		}
-		m, ok := cx.s.Model(nil, false)
 		cx.qAssert++
-		if ok {
-			cx.reportViolation(id, "assert", "false on every valuation of this path", m)
+		if cx.ensureModel() {
+			cx.reportViolation(id, "assert", "false on every valuation of this path", cx.model)
 		} else {
 			cx.aUnk++
 		}
 		cx.abort("assert-false", id)
 	}
-	v := cx.check(c, true, &cx.qAssert)
-	if len(cx.alt) > 0 {
-		script := cx.s.Script(c, true)
-		for _, a := range cx.alt {
-			cx.qCross++
-			if av := a.OneShot(script); av != v {
-				cx.crossDis++
+	var v Verdict
+	if cx.model != nil && !cx.evalModel(c) && len(cx.alt) == 0 {
+		// the current model of the path condition falsifies c
+		v = Sat
+		cx.reportViolation(id, "assert", "", cx.model)
+	} else {
+		v = cx.check(c, true, &cx.qAssert)
+		if len(cx.alt) > 0 {
+			script := cx.s.Script(c, true)
+			for _, a := range cx.alt {
+				cx.qCross++
+				if av := a.OneShot(script); av != v {
+					cx.crossDis++
+				}
 			}
 		}
-	}
-	switch v {
-	case Unsat:
-		cx.aSym++
-	case Unknown:
-		cx.aUnk++
-		if cx.cfg.DebugAborts {
-			fmt.Fprintf(os.Stderr, "[unknown assert] %s: %s\n", id, c.String())
-		}
-	case Sat:
-		m, ok := cx.s.Model(c, true)
-		cx.qAssert++
-		if !ok {
+		switch v {
+		case Unsat:
+			cx.aSym++
+		case Unknown:
 			cx.aUnk++
-		} else {
-			cx.reportViolation(id, "assert", "", m)
+			if cx.cfg.DebugAborts {
+				fmt.Fprintf(os.Stderr, "[unknown assert] %s: %s\n", id, c.String())
+			}
+		case Sat:
+			m, ok := cx.s.Model(c, true)
+			cx.qAssert++
+			if !ok {
+				cx.aUnk++
+			} else {
+				cx.reportViolation(id, "assert", "", m)
+			}
 		}
 	}
 	// continue under the assumption that the property holds
 	if v != Unsat {
-		if cx.check(c, false, &cx.qFeas) == Unsat {
-			cx.abort("assert-false", id)
+		if cx.model == nil || !cx.evalModel(c) {
+			cx.model = nil
+			if cx.check(c, false, &cx.qFeas) == Unsat {
+				cx.record(rec{kind: recAssert, h: c.h}, nil)
+				cx.abort("assert-false", id)
+			}
 		}
 	}
-	cx.s.Assert(c)
+	cx.record(rec{kind: recAssert, h: c.h}, c)
 	cx.setMemo(c, true)
 }
 
@@ -545,36 +654,40 @@ func (cx *pathCtx) concretize(x *Term) *big.Int {
 			cx.abort("unbounded-index", x.String())
 		}
 		if r, ok := cx.nextPrefix(recPick, 0); ok {
-			cx.trace = append(cx.trace, r)
 			eq := cx.f.Cmp(OpEq, x, cx.f.ConstU(r.val, x.w))
 			if eq.op != OpConst {
-				cx.assertPC(eq, r.taken)
+				cx.record(r, cx.lit(eq, r.taken))
 				cx.setMemo(eq, r.taken)
+			} else {
+				cx.record(r, nil)
 			}
 			if r.taken {
 				return new(big.Int).SetUint64(r.val)
 			}
 			continue
 		}
-		v, ok := cx.modelValue(x)
-		if !ok {
+		if !cx.ensureModel() {
 			cx.abort("infeasible", "concretize")
 		}
+		v := x.Eval(cx.model, map[*Term]*big.Int{})
 		if !v.IsUint64() {
 			cx.unsupported("concretize >64 bit")
 		}
 		eq := cx.f.Cmp(OpEq, x, cx.f.Const(v, x.w))
 		i := len(cx.trace)
-		if cx.check(eq, true, &cx.qConc) != Unsat {
+		if eq.op != OpConst && cx.check(eq, true, &cx.qConc) != Unsat {
 			alt := make([]rec, i+1)
 			copy(alt, cx.trace)
 			alt[i] = rec{kind: recPick, taken: false, val: v.Uint64()}
 			cx.alts = append(cx.alts, alt)
 			cx.forks++
 		}
-		cx.trace = append(cx.trace, rec{kind: recPick, taken: true, val: v.Uint64()})
-		cx.assertPC(eq, true)
-		cx.setMemo(eq, true)
+		if eq.op != OpConst {
+			cx.record(rec{kind: recPick, taken: true, val: v.Uint64()}, eq)
+			cx.setMemo(eq, true)
+		} else {
+			cx.record(rec{kind: recPick, taken: true, val: v.Uint64()}, nil)
+		}
 		return v
 	}
 }
@@ -594,9 +707,10 @@ func (cx *pathCtx) choose(name string, lo, hi int) int {
 		cx.choices = append(cx.choices, fmt.Sprintf("%s=%d", name, v))
 		return int(v)
 	}
-	if r, ok := cx.nextPrefix(recChoice, 0); ok {
-		idx = int(r.val)
-		cx.trace = append(cx.trace, r)
+	var r rec
+	if pr, ok := cx.nextPrefix(recChoice, 0); ok {
+		idx = int(pr.val)
+		r = pr
 	} else {
 		i := len(cx.trace)
 		for k := hi - lo; k >= 1; k-- {
@@ -607,10 +721,14 @@ func (cx *pathCtx) choose(name string, lo, hi int) int {
 			cx.forks++
 		}
 		idx = 0
-		cx.trace = append(cx.trace, rec{kind: recChoice, val: 0})
+		r = rec{kind: recChoice, val: 0}
 	}
 	v := lo + idx
-	cx.s.Assert(cx.f.Cmp(OpEq, x, cx.f.ConstI(int64(v), 64)))
+	cx.record(r, cx.f.Cmp(OpEq, x, cx.f.ConstI(int64(v), 64)))
+	if cx.model != nil {
+		// the selector is fresh: extending the model keeps it a model
+		cx.model[name] = norm(big.NewInt(int64(v)), 64)
+	}
 	cx.choices = append(cx.choices, fmt.Sprintf("%s=%d", name, v))
 	return v
 }
@@ -725,9 +843,11 @@ func (e *explorer) merge(cx *pathCtx, outcome string, completed bool) {
 	}
 	for f := range cx.funcs {
 		e.funcs[f] = true
+		delete(cx.funcs, f)
 	}
 	for f := range cx.intr {
 		e.intr[f] = true
+		delete(cx.intr, f)
 	}
 	if len(r.Samples) < 6 || (r.Paths%997 == 0 && len(r.Samples) < 12) {
 		r.Samples = append(r.Samples, PathSample{Choices: cx.choiceString(), Decisions: len(cx.trace), Forks: cx.forks, Outcome: outcome, Asserts: cx.asserts})
@@ -766,6 +886,8 @@ func (e *explorer) finish(t0 time.Time, solvers []*Solver) *Result {
 	for _, s := range solvers {
 		r.SolverSec += s.Time.Seconds()
 		r.SolverErrors += s.Errors
+		r.ModelSec += s.ModelTime.Seconds()
+		r.Models += s.Models
 	}
 	for f := range e.funcs {
 		r.Funcs = append(r.Funcs, f)
